@@ -170,6 +170,7 @@ func cmdCheck(args []string) int {
 	verbose := fs.Bool("v", false, "verbose")
 	noEvidence := fs.Bool("no-evidence", false, "do not write the evidence file (selftest runs)")
 	fs.Parse(args)
+	noEvidenceFlag = *noEvidence
 	if *prop == "" {
 		fmt.Fprintln(os.Stderr, "--prop required")
 		return 2
@@ -470,6 +471,8 @@ func preSatisfiable(g *Group, dir string, timeout int) bool {
 
 func round3(f float64) float64 { return float64(int(f*1000)) / 1000 }
 
+var noEvidenceFlag bool
+
 func failClosed(verif, prop, tier string, seed int, what, msg string, t0 time.Time) int {
 	dir := filepath.Join(verif, "replays", prop)
 	os.MkdirAll(dir, 0o755)
@@ -478,8 +481,13 @@ func failClosed(verif, prop, tier string, seed int, what, msg string, t0 time.Ti
 	os.WriteFile(path, b, 0o644)
 	fmt.Printf("VIOLATION property=%s replay=%s obligation=%s#%s no-failing-input-found\n", prop, path, prop, what)
 	fmt.Fprintln(os.Stderr, msg)
+	if noEvidenceFlag {
+		return 1
+	}
 	ev := Evidence{PropertyID: prop, Tier: tier, Seed: seed, Level: "proof", WallS: round3(time.Since(t0).Seconds()), Violations: 1,
-		Coverage: map[string]interface{}{"obligations": 1, "discharged": 0, "checker_cmd": "./check " + prop, "trusted_base": []string{}, "samples": []string{what + ": " + msg}}}
+		Assumptions: []string{"fail-closed run: the check could not be set up (" + what + "); nothing was proved"},
+		Coverage: map[string]interface{}{"obligations": 1, "discharged": 0, "checker_cmd": "./check " + prop, "trusted_base": []string{}, "samples": []string{what + ": " + msg},
+			"evaluations": 1, "distinct_nontrivial": 0}}
 	os.MkdirAll(filepath.Join(verif, "evidence"), 0o755)
 	bb, _ := json.MarshalIndent(ev, "", " ")
 	os.WriteFile(filepath.Join(verif, "evidence", prop+".json"), bb, 0o644)
